@@ -72,6 +72,8 @@ type runner struct {
 	restarts int
 	cpu      time.Duration
 	watchdogMS int
+	slow     int  // results that cost a full watchdog period (hang / leak)
+	aborted  bool // too many of them: the run is cut short (a verdict exists already)
 }
 
 func (r *runner) shardFile(s int) string {
@@ -149,6 +151,12 @@ func (r *runner) shard(shard int) error {
 		if next >= len(r.ids[shard]) {
 			return nil
 		}
+		r.mu.Lock()
+		ab := r.aborted
+		r.mu.Unlock()
+		if ab {
+			return nil
+		}
 		cmd := exec.Command(os.Args[0], "--c11-child", r.shardFile(shard), fmt.Sprint(r.offsets[shard][next]))
 		cmd.Env = append(os.Environ(), "GOMAXPROCS=4", "GOTRACEBACK=single")
 		if r.watchdogMS > 0 {
@@ -206,8 +214,18 @@ func (r *runner) shard(shard int) error {
 					}
 					r.mu.Lock()
 					r.results[idx] = &res
+					if (res.Outcome == "hang" || res.Outcome == "leak") && !strings.Contains(res.Detail, "nil channel") {
+						r.slow++
+						if r.slow > 24 && len(r.cases) > 1 {
+							r.aborted = true
+						}
+					}
+					ab := r.aborted
 					r.mu.Unlock()
 					last, cur = idx, -1
+					if ab {
+						cmd.Process.Kill()
+					}
 				case l == "DONE":
 					done = true
 				}
@@ -322,7 +340,16 @@ func formatOf(cs *Case) string {
 	return f
 }
 
-var genericPkg = regexp.MustCompile(`^(zcode\.|[A-Z(])`) // package zed (module root) and zcode: shared utilities
+// shared utility code: package zed (the module root: function names without a package qualifier) and zcode
+var qualified = regexp.MustCompile(`^[a-z][a-z0-9_/]*\.`)
+
+type pkgMatcher struct{}
+
+func (pkgMatcher) MatchString(fn string) bool {
+	return strings.HasPrefix(fn, "zcode.") || !qualified.MatchString(fn)
+}
+
+var genericPkg pkgMatcher
 
 // frames lists the repository functions of a stack, innermost first.
 func frames(stack string) []string {
@@ -459,7 +486,7 @@ func byteClass(class string) bool {
 func (sp *sampler) keep(format, seedName string, i int, m *Mutant, truncSeed bool) bool {
 	k, stride := 2, 5
 	if sp.full {
-		k, stride = 10, 1
+		k, stride = 1 << 30, 1
 	}
 	if !sp.full && format == "vng" {
 		k, stride = 1, 8
@@ -474,7 +501,7 @@ func (sp *sampler) keep(format, seedName string, i int, m *Mutant, truncSeed boo
 	case strings.HasPrefix(m.Class, "nest") || strings.HasPrefix(m.Class, "long"):
 		key := format + "|" + m.Class + "|" + m.Where
 		sp.counts[key]++
-		return sp.counts[key] <= 1 || (sp.full && sp.counts[key] <= 3)
+		return sp.counts[key] <= 1 || sp.full
 	}
 	key := format + "|" + m.Class + "|" + m.Where
 	sp.counts[key]++
@@ -521,12 +548,13 @@ func run(c *core.Ctx) error {
 	if !c.Quick() {
 		casesCfg = "ZngFaultCases.thorough.cfg"
 	}
-	startTLC("cases", core.TLCRun{Module: "ZngFaultCases", Cfg: casesCfg, Keep: []string{"cases.ndjson", "faultpath.json"}, Workers: 6, Deadlock: true, Coverage: true, Timeout: 15 * time.Minute})
+	startTLC("cases", core.TLCRun{Module: "ZngFaultCases", Cfg: casesCfg, Keep: []string{"cases.ndjson", "faultpath.json"}, Workers: 6, Deadlock: true, Coverage: true, Timeout: 30 * time.Minute})
 	if c.Quick() {
 		startTLC("live", core.TLCRun{Module: "ZngFault", Cfg: "ZngFault.quicklive.cfg", Workers: 4, Deadlock: true, Coverage: true, Timeout: 5 * time.Minute})
 	} else {
-		startTLC("live", core.TLCRun{Module: "ZngFault", Cfg: "ZngFault.thoroughlive.cfg", Workers: 4, Deadlock: true, Coverage: true, Timeout: 15 * time.Minute})
-		startTLC("three", core.TLCRun{Module: "ZngFault", Cfg: "ZngFault.thorough3.cfg", Workers: 4, Deadlock: true, Coverage: true, Timeout: 15 * time.Minute})
+		startTLC("live", core.TLCRun{Module: "ZngFault", Cfg: "ZngFault.thoroughlive.cfg", Workers: 4, Deadlock: true, Coverage: true, Timeout: 30 * time.Minute})
+		startTLC("three", core.TLCRun{Module: "ZngFault", Cfg: "ZngFault.thorough3.cfg", Workers: 4, Deadlock: true, Coverage: true, Timeout: 30 * time.Minute})
+		startTLC("cancel", core.TLCRun{Module: "ZngFault", Cfg: "ZngFault.thoroughcancel.cfg", Workers: 4, Deadlock: true, Coverage: true, Timeout: 30 * time.Minute})
 	}
 	startTLC("detect", core.TLCRun{Module: "AnyDetect", Cfg: "AnyDetect.cfg", Keep: []string{"detect.ndjson", "order.json"}, Workers: 2, Deadlock: true, Coverage: true, Timeout: 5 * time.Minute})
 
@@ -547,7 +575,8 @@ func run(c *core.Ctx) error {
 	var cases []Case
 	full := !c.Quick()
 	addRead := func(reader, consumer string, o Opts, seed string, m Mutant) {
-		sink := []string{"", "zson", "zjson"}[len(cases)%3]
+		h := crc32.ChecksumIEEE(m.Data) + crc32.ChecksumIEEE([]byte(seed+reader))
+		sink := []string{"", "zson", "zjson"}[(h/7)%3]
 		cases = append(cases, Case{Kind: "read", Reader: reader, Consumer: consumer, Opts: o, Seed: seed, Class: m.Class, Where: m.Where, Note: m.Note, Sink: sink, Data: m.Data})
 	}
 	k := 0
@@ -588,31 +617,42 @@ func run(c *core.Ctx) error {
 				continue
 			}
 			k++
+			// consumer, options and detection path are functions of the case content, so that every case
+			// of the quick tier (any seed) is also a case of the thorough tier
+			h := int(crc32.ChecksumIEEE(m.Data)>>3) + int(crc32.ChecksumIEEE([]byte(name)))
 			consumer := "drain"
-			if k%7 == 3 {
-				consumer = fmt.Sprintf("stop:%d", k%3)
+			if h%7 == 3 {
+				consumer = fmt.Sprintf("stop:%d", h%3)
 			}
+			autoOpts := Opts{Threads: 2, ReadMax: 1 << 20, ReadSize: 4096, Validate: true}
 			switch s.Format {
 			case "zng":
 				if full {
-					for j := 0; j < 3; j++ {
-						addRead("zng", consumer, zngOptList[(k+j*2+int(c.Seed))%len(zngOptList)], name, m)
+					for _, o := range zngOptList {
+						addRead("zng", consumer, o, name, m)
 					}
+					addRead("auto", "drain", autoOpts, name, m)
+					addRead("autostream", "drain", autoOpts, name, m)
 				} else {
-					addRead("zng", consumer, zngOptList[(k+int(c.Seed))%len(zngOptList)], name, m)
-				}
-				if k%4 == 0 {
-					addRead([]string{"auto", "autostream"}[(k/4)%2], "drain", Opts{Threads: 2, ReadMax: 1 << 20, ReadSize: 4096, Validate: k%3 == 0}, name, m)
+					addRead("zng", consumer, zngOptList[(h+int(c.Seed))%len(zngOptList)], name, m)
+					if (h+int(c.Seed))%4 == 0 {
+						addRead([]string{"auto", "autostream"}[(h/4)%2], "drain", autoOpts, name, m)
+					}
 				}
 			case "vng":
 				addRead("vng", consumer, Opts{Validate: true}, name, m)
-				if k%6 == 0 {
-					addRead("auto", "drain", Opts{Threads: 2, ReadMax: 1 << 20, ReadSize: 4096, Validate: true}, name, m)
+				if full || (h+int(c.Seed))%6 == 0 {
+					addRead("auto", "drain", autoOpts, name, m)
 				}
 			default:
 				addRead(s.Format, consumer, Opts{}, name, m)
-				if s.Format != "line" && k%5 == 0 {
-					addRead([]string{"auto", "autostream"}[(k/5)%2], "drain", Opts{Threads: 2, ReadMax: 1 << 20, ReadSize: 4096, Validate: true}, name, m)
+				if s.Format != "line" {
+					if full {
+						addRead("auto", "drain", autoOpts, name, m)
+						addRead("autostream", "drain", autoOpts, name, m)
+					} else if (h+int(c.Seed))%5 == 0 {
+						addRead([]string{"auto", "autostream"}[(h/5)%2], "drain", autoOpts, name, m)
+					}
 				}
 			}
 		}
@@ -647,8 +687,9 @@ func run(c *core.Ctx) error {
 		if full {
 			n = 16
 		}
+		drng := rand.New(rand.NewSource(int64(crc32.ChecksumIEEE([]byte("detect/" + s.Format + "/" + s.Name)))))
 		for i := 0; i < n; i++ {
-			ds = append(ds, s.Data[:rng.Intn(len(s.Data))])
+			ds = append(ds, s.Data[:drng.Intn(len(s.Data))])
 		}
 		for i, d := range ds {
 			for _, rd := range []string{"auto", "autostream"} {
@@ -662,21 +703,13 @@ func run(c *core.Ctx) error {
 	// ---- query cases (exploration)
 	corpus := queryCorpus()
 	c.Set("query_corpus_texts", len(corpus))
-	per := 3
-	if full {
-		per = 30
-	}
-	if !full && len(corpus) > 90 {
-		// quick: a seed-dependent third of the corpus (valid.zed always included: it comes first)
-		var sub []string
-		for i, q := range corpus {
-			if i < 40 || (i+int(c.Seed))%4 == 0 {
-				sub = append(sub, q)
-			}
+	per := 16
+	// the list of mutated texts is the same for every seed; the quick tier runs a seed-dependent slice of it
+	qrng := rand.New(rand.NewSource(20240911))
+	for qi, m := range queryMutants(qrng, corpus, per, true) {
+		if !full && m.Class != "corpus" && (qi+int(c.Seed))%8 != 0 {
+			continue
 		}
-		corpus = sub
-	}
-	for _, m := range queryMutants(rng, corpus, per, full) {
 		cases = append(cases, Case{Kind: "query", Reader: "query", Consumer: "compile", Class: m.Class, Where: m.Where, Seed: "corpus", Data: m.Data})
 	}
 	nQuery := len(cases) - nRead - nDetect
@@ -688,7 +721,7 @@ func run(c *core.Ctx) error {
 			return nil // MustHold already recorded the reason (inconclusive)
 		}
 	}
-	if !c.Quick() && tlcResults["three"] == nil {
+	if !c.Quick() && (tlcResults["three"] == nil || tlcResults["cancel"] == nil) {
 		return nil
 	}
 	// vacuity: every action of ZngFault must be covered by at least one R1 run
@@ -714,7 +747,13 @@ func run(c *core.Ctx) error {
 	}
 	c.Logf("TLC R1: ZngFault %d+%d distinct states, AnyDetect %d distinct states; all invariants, deadlock freedom and temporal properties hold",
 		tlcResults["cases"].Distinct, tlcResults["live"].Distinct, tlcResults["detect"].Distinct)
-	c.Set("r1_zngfault_states", tlcResults["cases"].Distinct+tlcResults["live"].Distinct)
+	var zst int64
+	for name, res := range tlcResults {
+		if name != "detect" {
+			zst += res.Distinct
+		}
+	}
+	c.Set("r1_zngfault_states", zst)
 	c.Set("r1_anydetect_states", tlcResults["detect"].Distinct)
 
 	type caseRow struct {
@@ -762,12 +801,15 @@ func run(c *core.Ctx) error {
 		for _, cl := range classes {
 			nvar := 1
 			if full {
-				nvar = 3
+				nvar = 4
+			}
+			if full && len(row.Stream) > 3 && (pk/7)%5 != 0 {
+				continue // streams of 4 items: a fifth of them (the thorough tier replays all streams of <= 3 items)
 			}
 			for v := 0; v < nvar; v++ {
 				variant := v
 				if !full {
-					variant = (v*3 + pk + int(c.Seed)) % 8
+					variant = (pk + int(c.Seed)) % 4
 				}
 				data, err := realize(row.Stream, cl, variant, 1<<16)
 				if err != nil {
@@ -833,7 +875,11 @@ func run(c *core.Ctx) error {
 
 	// ---- run everything in child processes
 	r := &runner{c: c, cases: cases}
-	if err := r.write("cases", 8); err != nil {
+	nsh := 8
+	if full {
+		nsh = 12
+	}
+	if err := r.write("cases", nsh); err != nil {
 		return err
 	}
 	if err := r.runAll(); err != nil {
@@ -842,6 +888,10 @@ func run(c *core.Ctx) error {
 	c.Set("child_restarts", r.restarts)
 	c.Set("child_cpu_s", r.cpu.Seconds())
 	c.Logf("children done (%d restarts, %.0f CPU-s)", r.restarts, r.cpu.Seconds())
+	if r.aborted {
+		c.Logf("more than 24 cases hung or leaked goroutines: the remaining cases were not run")
+		c.Note("the run was cut short after 25 hanging / leaking cases; violations are reported for the cases that ran")
+	}
 
 	// ---- verdicts
 	var detTable map[string]string
@@ -853,6 +903,10 @@ func run(c *core.Ctx) error {
 		cs := &cases[i]
 		res := r.results[i]
 		if res == nil {
+			if r.aborted {
+				c.Add("cases_not_run_after_abort", 1)
+				continue
+			}
 			c.Inconclusive("case %d (%s %s) has no result", i, cs.Kind, cs.Reader)
 			continue
 		}
@@ -869,10 +923,18 @@ func run(c *core.Ctx) error {
 			if (res.Outcome == "hang" || res.Outcome == "leak") && !confirmed[sig] && !strings.Contains(res.Detail, "nil channel") {
 				// timing-based verdicts are confirmed by one isolated re-run
 				again, err := runOne(c, *cs)
-				if err != nil || again.Outcome != res.Outcome {
-					c.Inconclusive("case %d: %s was not reproduced by an isolated re-run (%v)", i, res.Outcome, err)
+				if err != nil {
+					c.Inconclusive("case %d: re-run failed: %v", i, err)
 					continue
 				}
+				if again.Outcome == "ok" {
+					// the isolated re-run (three times longer watchdog) terminated cleanly: the first attempt
+					// was slow (machine load), not stuck
+					c.Add("slow_cases_confirmed_ok", 1)
+					c.Eval(key, true)
+					continue
+				}
+				res = again
 			}
 			confirmed[sig] = true
 			w := *cs
